@@ -204,3 +204,53 @@ func pruneCache(dir string, keep int) {
 		os.Remove(filepath.Join(dir, fs[i].name))
 	}
 }
+
+// prepSnapObj compiles the freshly generated snapshot alone (no harness, no
+// sanitizer) to one relocatable object for the static hermeticity inspection
+// of C10; cached by content like the harness builds. Requires prepGen's root.
+func prepSnapObj(c *ctx) error {
+	root := filepath.Join(c.scratch, "root")
+	snap := filepath.Join(root, "release", "c", "wuffs-unsupported-snapshot.c")
+	sb, err := os.ReadFile(snap)
+	if err != nil {
+		return err
+	}
+	flags := "-c -O1 -fno-stack-protector -DWUFFS_IMPLEMENTATION -x c"
+	h := sha256.New()
+	h.Write(sb)
+	h.Write([]byte(flags))
+	key := hex.EncodeToString(h.Sum(nil))[:24]
+	cacheDir := filepath.Join(verifRoot, ".work", "cc")
+	os.MkdirAll(cacheDir, 0o755)
+	cached := filepath.Join(cacheDir, "snapobj-"+key+".o")
+	dst := filepath.Join(c.scratch, "snapshot.o")
+	if _, err := os.Stat(cached); err == nil {
+		if _, err := runCmd("/", c.env, time.Minute, "cp", cached, dst); err == nil {
+			c.env = append(c.env, "VERIF_SNAP_OBJ="+dst)
+			return nil
+		}
+	}
+	args := append(strings.Fields(flags), snap, "-o", dst)
+	if out, err := runCmd(c.scratch, c.env, 15*time.Minute, "gcc", args...); err != nil {
+		return fmt.Errorf("compiling the generated snapshot alone failed: %v\n%s", err, tail(string(out), 40))
+	}
+	tmp := cached + fmt.Sprintf(".tmp%d", os.Getpid())
+	if _, err := runCmd("/", c.env, time.Minute, "cp", dst, tmp); err == nil {
+		os.Rename(tmp, cached)
+	}
+	pruneCache(cacheDir, 12)
+	c.env = append(c.env, "VERIF_SNAP_OBJ="+dst)
+	return nil
+}
+
+// chain runs several prep steps in order.
+func chain(steps ...func(*ctx) error) func(*ctx) error {
+	return func(c *ctx) error {
+		for _, s := range steps {
+			if err := s(c); err != nil {
+				return err
+			}
+		}
+		return nil
+	}
+}
